@@ -64,6 +64,16 @@ Theorem resolve_is_spec_refuted_cycle :
 Proof. exact refuted_cycle. Qed.
 Print Assumptions resolve_is_spec_refuted_cycle.
 
+(* witness C: a named import from an ES module that has no export statement is accepted
+   (binding undefined, warning only); ECMA-262: the import does not resolve (SyntaxError) *)
+Theorem resolve_is_spec_refuted_exportless :
+  all_esm witness_exportless = true /\ single_alias witness_exportless = true /\
+  indirect_acyclic witness_exportless = true /\ named_targets_export witness_exportless = false /\
+  link_verdict witness_exportless (seq 0 4) 1 (imp 1 3 0) = Some VOther /\
+  spec_verdict witness_exportless 1 (imp 1 3 0) = Some VNull.
+Proof. exact refuted_exportless. Qed.
+Print Assumptions resolve_is_spec_refuted_exportless.
+
 (* partial, bounded-exhaustive (finite domains, by computation): outside the
    two refuted shapes the linker's verdict (found binding / not found /
    ambiguous) equals ResolveExport's for every import of
